@@ -62,6 +62,9 @@ func (g *gen) chanOut(name string, typ types.Type) (types.Type, types.ChanDir, e
 	if !ok {
 		return nil, types.SendRecv, fmt.Errorf("%s is not a channel: %s", name, typ)
 	}
+	if chanType.Dir() == types.SendOnly {
+		return nil, types.SendRecv, fmt.Errorf("%s, the argument, %s, is a send only channel, which cannot be received from", name, typ)
+	}
 	return chanType.Elem(), chanType.Dir(), nil
 }
 
